@@ -29,6 +29,8 @@ def run(id, entry, NB, L, CB=0, tiers=QT, mode='SEQ', cls='shape-complete', unwi
     d = dict(id=id, entry=entry, tiers=tiers, mode=mode, cls=cls, defs={'NB': NB, 'L': L, 'CB': CB},
              unwind=unwind if unwind is not None else (3 + L + 2),
              unwindset=['vhm_lock_bucket.0:2', 'vit_move_to_next_bucket.0:2', 'vit_move_to_next_bucket:%d' % (NB + 1)] + list(unwindset))
+    import os
+    if os.environ.get('VI_FLAGS'): d['flags'] = os.environ['VI_FLAGS'].split()
     d.update(kw)
     return d
 Q = ['quick']; TH = ['thorough']
